@@ -180,3 +180,181 @@ def directive_sources(seed, n):
                 lines.append("# pytrapic: " + tags + " # pytrapic: " + spell(rnd.choice(names)))
         pool.append("\n".join(lines) + "\nx = 1\n")
     return pool
+
+
+# =============================================================================== C10: Compiler.compile never lets an Exception escape
+from pyvc.pysem import exc as _exc
+from pyvc.state import Raise as _Raise, fresh as _fresh
+
+ANYS = z3.DeclareSort("Opq_any")
+F_IS_SYNTAX_ERROR = z3.Function("is_instance_of_SyntaxError", ANYS, z3.BoolSort())
+
+C10_ASSUMED = [
+    "CompilerError.node is None or an astroid node (attributes lineno, col_offset, end_lineno, end_col_offset exist); str(CompilerError) does not raise",
+    "a SyntaxError instance has the attributes lineno and offset; other objects may lack them",
+    "parsing, CodeData(...) and every compiler pass may raise ANY Exception subclass (they are opaque to this proof)",
+    "traceback.format_exc() and str(exception) do not raise; the timing helper time() is a no-op (_DO_TIMING is False)",
+    "BaseException subclasses that are not Exception (KeyboardInterrupt, SystemExit, GeneratorExit) and memory exhaustion are outside the model",
+    "the pass loop is unrolled for two symbolic passes: every iteration may raise or continue, and carries no state that influences exception flow",
+]
+
+
+def _anyv(prefix="a"):
+    return VOpq("opt:any", _fresh(prefix, ANYS))
+
+
+def _raise_any(st, origin):
+    s = st.fork()
+    e = VExc("Exception", (), origin=origin)
+    e.inexact = True
+    e.attrs["node"] = VOpq("opt:node", _fresh("node", ANYS))
+    e.attrs["error"] = _anyv("err")
+    return s, _Raise(e)
+
+
+def _opaque_call(eng, st, args, kw, origin):
+    s0, r0 = _raise_any(st, origin)
+    return [(s0, r0), (st.fork(), _anyv("r"))]
+
+
+def _any_attr(eng, st, obj, name, origin):
+    # attribute of an arbitrary object: present only under conditions the code has to establish
+    if name in ("lineno", "offset"):
+        outs = []
+        s1 = eng.branch(st, F_IS_SYNTAX_ERROR(obj.t))
+        if s1 is not None:
+            outs.append((s1, _anyv(name)))
+        s0 = eng.branch(st, z3.Not(F_IS_SYNTAX_ERROR(obj.t)))
+        if s0 is not None:
+            outs.append((s0, _exc("AttributeError", f"object has no attribute {name!r}", origin)))
+        return outs
+    s0 = st.fork()
+    return [(s0, _exc("AttributeError", name, origin)), (st.fork(), _anyv(name))]
+
+
+def _node_attr(eng, st, obj, name, origin):
+    if name in ("lineno", "col_offset", "end_lineno", "end_col_offset"):
+        return [(st, _anyv(name))]
+    return [(st.fork(), _exc("AttributeError", name, origin))]
+
+
+def _isinstance_hook(eng, st, args, kw, origin):
+    from pyvc.builtins_model import b_isinstance
+
+    v, t = args
+    if isinstance(v, VOpq) and v.tag == "opt:any":
+        if isinstance(t, VType) and t.name == "SyntaxError":
+            return [(st, S_vbool(F_IS_SYNTAX_ERROR(v.t)))]
+        return [(st, VBool(_fresh("isinst", z3.BoolSort())))]
+    return b_isinstance(eng, st, args, kw, origin)
+
+
+def S_vbool(t):
+    from pyvc.pysem import vbool
+
+    return vbool(t)
+
+
+def _getitem_hook(eng, st, obj, idx, origin):
+    if isinstance(obj, VOpq) and obj.tag == "opt:any":
+        s0, r0 = _raise_any(st, origin)
+        return [(s0, r0), (st.fork(), _anyv("item"))]
+    return None
+
+
+def compile_world():
+    w = {}
+    w["__opqattr__:opt:any"] = _any_attr
+    w["__opqattr__:opt:node"] = _node_attr
+    w["__getitem__"] = _getitem_hook
+    w["__callopq__"] = lambda eng, st, f, args, kw, origin: _opaque_call(eng, st, args, kw, origin)
+    w["__comprehension__"] = lambda eng, st, it, node, origin: [_raise_any(st, origin), (st.fork(), _anyv("comp"))]
+    w["isinstance"] = VFun("builtin", fn=_isinstance_hook, name="isinstance")
+    w["time"] = VFun("builtin", fn=lambda e, s, a, k, o: [(s, VC(None))], name="time")
+    w["CompilerError"] = VType("CompilerError")
+    w["SyntaxError"] = VType("SyntaxError")
+    w["astroid"] = VMod("astroid", {"AstroidSyntaxError": VType("astroid.AstroidSyntaxError")})
+    w["CodeData"] = VFun("builtin", fn=_opaque_call, name="CodeData")
+    w["module:traceback"] = VMod("traceback", {"format_exc": VFun("builtin", fn=lambda e, s, a, k, o: [(s, VStr(_fresh("tb", z3.StringSort())))], name="format_exc")})
+    w["__excattr__"] = lambda eng, st, e, name, origin: [(st, e.attrs[name])] if name in e.attrs else ([(st, VOpq("opt:node", _fresh("node", ANYS)))] if name == "node" else ([(st, _anyv("err"))] if name == "error" else None))
+    return w
+
+
+def _make_self(st, pname):
+    passes = st.new_list([VFun("builtin", fn=_pass_ctor, name="pass_cls0"), VFun("builtin", fn=_pass_ctor, name="pass_cls1")])
+    return st.new_obj("Compiler", {"passes": passes, "options": _anyv("options"), "_raise_exceptions": VC(False),
+                                   "_parse": VFun("builtin", fn=_opaque_call, name="Compiler._parse")})
+
+
+def _pass_ctor(eng, st, args, kw, origin):
+    s0, r0 = _raise_any(st, origin)
+    inst = st.fork()
+    obj = inst.new_obj("CompilerPass", {"run": VFun("builtin", fn=_opaque_call, name="pass.run")})
+    return [(s0, r0), (inst, obj)]
+
+
+def compile_post(self, src, result):
+    return is_pass_result(result) or isinstance(result, dict)
+
+
+def _is_result_sym(eng, st, args, kw, origin):
+    (a,) = args
+    return [(st, VC(isinstance(a, VOpq)))]
+
+
+from pyvc.speclib import uninterpreted as _unint
+
+
+@_unint(_is_result_sym)
+def is_pass_result(r):
+    """the value the passes left in data.result (symbolically: the opaque value; natively: a dict with 'code')"""
+    return isinstance(r, dict) and "code" in r
+
+
+def error_dict_has_description(self, src, result):
+    # on the exceptional paths the function builds the dictionary itself: it must carry error.description
+    return is_pass_result(result) or ("error" in result and "description" in result["error"])
+
+
+def native_compile(src):
+    from stationeers_pytrapic.compiler import CompileOptions, Compiler
+
+    return Compiler(CompileOptions()).compile(src)
+
+
+def search_compile(clause):
+    deep = "-" * 100000 + "1"
+    cases = ["", "x = (", "def f(:\n", deep, "not " * 50000 + "1", "~" * 20000 + "1", "\x00", "x = 1\n" * 10, {"": "x=1", "m": "def ("}, {"m": "x"}, 5, None, ["a"],
+             "from stationeers_pytrapic.symbols import *\ndb.Setting = unknown_name\n", "class A: pass\n", "import os\n", "lambda: 0\n", "x: int = 3\n", "async def f(): pass\n"]
+    for c in cases:
+        try:
+            r = native_compile(c)
+        except RecursionError:
+            continue
+        except Exception as e:
+            return {"src": c if not isinstance(c, str) or len(c) < 300 else c[:100] + f"... ({len(c)} chars)"}, f"raised {type(e).__name__}: {e}"
+        if not isinstance(r, dict) or not (("code" in r) or ("error" in r and "description" in r["error"])):
+            return {"src": c if not isinstance(c, str) or len(c) < 300 else c[:100] + "..."}, repr(r)[:300]
+    return None
+
+
+def compile_contract():
+    tree = X.module_ast("compiler.py")
+    f = X.find_function(tree, "Compiler.compile")
+    k_self = KCustom("Compiler(_raise_exceptions=False)", _make_self, lambda m, v: "<Compiler>")
+    k_any = KCustom("any object", lambda st, p: _anyv(p), lambda m, v: "<object>")
+    c = Contract(
+        name="compiler.Compiler.compile", fun=lambda eng: X.vfun(f, "compiler.Compiler.compile"),
+        params=[("self", [k_self]), ("src", [KStr(), k_any])],
+        post={"returns_a_result": compile_post, "error_results_carry_a_description": error_dict_has_description}, raises={},
+        native=None, world=compile_world(), search=search_compile,
+        describe=dict(X.describe(f, "compiler.py"), track="U (exception flow; the pass loop unrolled for 2 symbolic passes)",
+                      extraction_drops=["time(...) calls are no-ops (_DO_TIMING is False: checked syntactically)", "type annotations"]))
+    c.feas_timeout_ms = 300
+    return c
+
+
+def timing_is_off():
+    tree = X.module_ast("compiler.py")
+    vals = [n.value for n in tree.body if isinstance(n, ast.Assign) and any(isinstance(t, ast.Name) and t.id == "_DO_TIMING" for t in n.targets)]
+    return len(vals) == 1 and isinstance(vals[0], ast.Constant) and vals[0].value is False
